@@ -41,6 +41,11 @@ template <class P> struct PolyW {
     PPL::BHRZ03_Certificate c1(a), c2(b); PPL::H79_Certificate h1(a), h2(b);
     return c1.compare(c2) == 0 && h1.compare(h2) == 0 && c1.compare(b) == 0 && h1.compare(b) == 0;
   }
+  // compare(ph) is documented as the comparison with the certificate for ph: both overloads must agree (smaller contained in larger)
+  static bool cert_overloads_agree(const P& smaller, const P& larger) {
+    PPL::BHRZ03_Certificate c1(smaller), c2(larger); PPL::H79_Certificate h1(smaller), h2(larger);
+    return c1.compare(larger) == c1.compare(c2) && h1.compare(larger) == h1.compare(h2) && c2.compare(c1) == -c1.compare(c2) && h2.compare(h1) == -h1.compare(h2);
+  }
 };
 template <> struct WOps<PPL::C_Polyhedron> : PolyW<PPL::C_Polyhedron> {};
 template <> struct WOps<PPL::NNC_Polyhedron> : PolyW<PPL::NNC_Polyhedron> {};
@@ -52,6 +57,7 @@ template <> struct WOps<PPL::Grid> {
   static bool limited(int v, int form, P& y, const P& x, const Constraint_System&, unsigned* tp) { (void) v; (void) form; (void) y; (void) x; (void) tp; return false; }
   static int cert(int, const P& older, const P& newer) { PPL::Grid_Certificate c(older); return c.compare(newer) == 1 ? 1 : 0; }
   static bool cert_same(const P& a, const P& b) { PPL::Grid_Certificate c1(a), c2(b); return c1.compare(c2) == 0 && c1.compare(b) == 0 && c2.compare(a) == 0; }
+  static bool cert_overloads_agree(const P& smaller, const P& larger) { PPL::Grid_Certificate c1(smaller), c2(larger); return c1.compare(larger) == c1.compare(c2) && c2.compare(c1) == -c1.compare(c2); }
 };
 template <class P> struct ShapeW {
   static int count() { return Dom<P>::oct ? 2 : 3; }
@@ -79,6 +85,7 @@ template <class P> struct ShapeW {
     return nb < na ? 1 : 0;
   }
   static bool cert_same(const P&, const P&) { return true; }
+  static bool cert_overloads_agree(const P&, const P&) { return true; }
 };
 template <> struct WOps<BDQ> : ShapeW<BDQ> {};
 template <> struct WOps<OSQ> : ShapeW<OSQ> {};
@@ -90,6 +97,7 @@ template <> struct WOps<RBox> {
   static bool limited(int, int form, P& y, const P& x, const Constraint_System& cs, unsigned* tp) { if (form != 1) return false; y.limited_CC76_extrapolation_assign(x, cs, tp); return true; }
   static int cert(int, const P&, const P&) { return -1; }
   static bool cert_same(const P&, const P&) { return true; }
+  static bool cert_overloads_agree(const P&, const P&) { return true; }
 };
 
 template <class D> struct WidenHarness : Harness {
@@ -202,6 +210,7 @@ template <class D> struct WidenHarness : Harness {
         { bool ey, ex; { D t(y); ey = t.is_empty(); } { D t(*x); ex = t.is_empty(); }
           if (!ey) { std::unique_ptr<D> ty = canonical(y, (int) idx + 2); ctx.stat("widen.certificate_consistency_checked");
             if (!WOps<D>::cert_same(y, *ty)) { ctx.violation("C08", "certificate-representation-dependent", kl(op, "", ""), "the convergence certificates of two objects denoting the same set differ"); break; } }
+          if (!ex && !ey && !WOps<D>::cert_overloads_agree(*x, y)) { ctx.violation("C08", "certificate-overloads-disagree", kl(op, "", ""), "comparing a certificate with an element and with that element's certificate gives different answers"); break; }
           if (!ex) { std::unique_ptr<D> tx = canonical(*x, (int) idx + 3);
             if (!WOps<D>::cert_same(*x, *tx)) { ctx.violation("C08", "certificate-representation-dependent", kl(op, "", "smaller"), "the convergence certificates of two objects denoting the same set differ"); break; } } }
         // ---- plain widening and its twin
@@ -278,6 +287,135 @@ template <class D> struct WidenHarness : Harness {
     ctx.nontrivial = ctx.ops_done >= 3 && ctx.faults_fired >= 1;
   }
 };
+
+// ---- powersets: the certificate-based BHZ03 lifting and the BGP99 extrapolation (C08)
+// The chain: the next larger argument is the current powerset with some disjuncts enlarged (upper bound with a plan-chosen
+// polyhedron) and some added, so that the previous iterate definitely entails it (the operator's precondition).
+// Judged per step: OK(), the result covers the larger argument (on probe points, and geometrically when small), and for
+// BHZ03 every non-stationary step is stabilizing in the sense the operator is certified by: the certificate of the
+// poly-hull decreases, or it is equal and several disjuncts were collapsed into one, or it is equal and the multiset of
+// the disjuncts' certificates decreases (the ordering of [BHZ03b], re-implemented here over the public certificate classes).  BGP99 (an extrapolation: max_disjuncts bounds the number of
+// disjuncts before the heuristics are applied, not afterwards): OK() and covering only.
+template <class PH> struct PsetWidenHarness : Harness {
+  typedef PPL::Pointset_Powerset<PH> PS;
+  typedef ObjHarness<PH> OH;
+  std::string nm;
+  PsetWidenHarness() : nm(std::string("Powerset_") + Dom<PH>::name()) {}
+  const char* name() const override { return "widen"; }
+  int child_seconds() const override { return 60; }
+
+  Plan generate(Rng& r, const std::string&, bool thorough) override {
+    Plan p; p.domain = nm;
+    int dim = (int) r.range(1, thorough ? 3 : 2);
+    p.knobs["dim"] = dim; p.knobs["W"] = dim + 2; p.knobs["pseed"] = (long) r.below(1000000);
+    int W = dim + 2;
+    { Op op; op.kind = "start"; long k = r.range(1, 3); op.a = { k };
+      for (long i = 0; i < k; ++i) { op.a.push_back(r.range(2, 5)); OH::gen_construct(r, op, W, false); }
+      p.ops.push_back(op); }
+    long n = r.range(3, thorough ? 14 : 8);
+    for (long i = 0; i < n; ++i) {
+      Op op; op.kind = "pstep";
+      long g = r.range(1, 2);
+      op.a = { r.range(0, 3), r.range(1, 4), r.range(0, 3), g };
+      for (long j = 0; j < g; ++j) { op.a.push_back(r.chance(35) ? -1 : r.range(0, 5)); op.a.push_back(r.range(2, 5)); OH::gen_construct(r, op, W, false); }
+      p.ops.push_back(op);
+    }
+    return p;
+  }
+
+  static std::string kl(const std::string& dom, const Op& op, const std::string& v, const std::string& extra) { return dom + "|" + op.kind + "|-|" + v + (extra.empty() ? "" : "|" + extra); }
+  static bool in_set(const PS& s, const QPoint& p) { for (auto i = s.begin(); i != s.end(); ++i) { PH c(i->pointset()); if (member_of(c, p)) return true; } return false; }
+  static PH hull_of(const PS& s, dimension_type dim) { PH h(dim, PPL::EMPTY); for (auto i = s.begin(); i != s.end(); ++i) { PH c(i->pointset()); h.upper_bound_assign(c); } return h; }
+  // 1: (older, newer) is stabilizing; 0: not
+  template <class Cert> static bool stabilizing(const PS& older, const PS& newer, dimension_type dim) {
+    PH ho = hull_of(older, dim), hn = hull_of(newer, dim);
+    Cert co(ho); int c = co.compare(hn);
+    if (c == 1) return true;
+    if (c != 0) return false;
+    // (second component of the powerset certificate [BHZ03b]: collapsing several disjuncts into one)
+    if (older.size() > 1 && newer.size() == 1) return true;
+    if (older.size() <= 1) return false;
+    typedef std::map<Cert, size_t, typename Cert::Compare> MS;
+    MS mo, mn;
+    for (auto i = older.begin(); i != older.end(); ++i) { PH t(i->pointset()); Cert k(t); ++mo[k]; }
+    for (auto i = newer.begin(); i != newer.end(); ++i) { PH t(i->pointset()); Cert k(t); ++mn[k]; }
+    auto xi = mn.begin(); auto yi = mo.begin();
+    while (xi != mn.end() && yi != mo.end()) {
+      int r = xi->first.compare(yi->first);
+      if (r == 0) { if (xi->second == yi->second) { ++xi; ++yi; } else return xi->second < yi->second; }
+      else return r == -1;
+    }
+    return yi != mo.end();
+  }
+
+  void run(const Plan& plan, Ctx& ctx) override {
+    int dim = (int) std::min(3L, std::max(1L, plan.knob("dim", 2)));
+    int W = (int) std::min(8L, std::max(1L, plan.knob("W", dim + 2)));
+    Probes probes; probes.seed = (u64) plan.knob("pseed", 1);
+    std::unique_ptr<PS> x; long idx = -1;
+    for (const Op& op : plan.ops) {
+      ++idx;
+      if (!ctx.viols.empty()) break;
+      ctx.begin_op(idx, op); ctx.log(op.kind);
+      try {
+        if (op.kind == "start") {
+          x.reset(new PS((dimension_type) dim, PPL::EMPTY));
+          long k = std::min(3L, std::max(1L, op.mod(0, 4))); size_t pos = 1;
+          for (long i = 0; i < k && pos < op.a.size(); ++i) { Cur c(op, pos, W); std::unique_ptr<PH> d = OH::construct_dim(dim, c); pos = c.i; x->add_disjunct(*d); }
+          ++ctx.ops_done; continue;
+        }
+        if (op.kind != "pstep" || !x) continue;
+        int v = (int) op.mod(0, 4); unsigned md = (unsigned) (1 + op.mod(1, 4)); long hist = op.mod(2, 4); long g = std::min(2L, std::max(1L, op.mod(3, 3)));
+        std::string vn = v == 0 ? "BHZ03_H79" : v == 1 ? "BHZ03_BHRZ03" : v == 2 ? "BGP99_H79" : "BGP99_BHRZ03";
+        (void) x->omega_reduce();
+        if (x->size() == 0) { ctx.stat("pwiden.empty_chain"); break; }
+        // ---- the larger argument
+        std::vector<PH> ds; for (auto i = x->begin(); i != x->end(); ++i) ds.push_back(PH(i->pointset()));
+        size_t pos = 4; std::vector<PH> fresh;
+        for (long j = 0; j < g && pos + 1 < op.a.size(); ++j) {
+          long target = op.a[pos]; Cur c(op, pos + 1, W); std::unique_ptr<PH> d = OH::construct_dim(dim, c); pos = c.i;
+          if (target < 0 || ds.empty()) fresh.push_back(*d); else ds[(size_t) target % ds.size()].upper_bound_assign(*d);
+        }
+        PS y((dimension_type) dim, PPL::EMPTY);
+        for (auto& d : ds) y.add_disjunct(d);
+        for (auto& d : fresh) y.add_disjunct(d);
+        if (hist == 1) y.omega_reduce(); else if (hist == 2) y.pairwise_reduce();
+        { PS a(*x), b(y); if (!a.definitely_entails(b)) { if (hist == 2) { ctx.stat("pwiden.precondition_lost_by_pairwise_reduce"); PS z((dimension_type) dim, PPL::EMPTY); for (auto& d : ds) z.add_disjunct(d); for (auto& d : fresh) z.add_disjunct(d); y.m_swap(z); }
+            else { ctx.violation("C08", "chain-not-ascending", kl(nm, op, vn, ""), "the previous iterate does not entail the enlarged powerset (workload defect)"); break; } } }
+        if (y.size() > 8) { ctx.stat("pwiden.too_many_disjuncts"); break; }
+        // ---- widen
+        PS w(y);
+        if (v == 0) w.template BHZ03_widening_assign<PPL::H79_Certificate>(*x, PPL::widen_fun_ref(&PPL::Polyhedron::H79_widening_assign));
+        else if (v == 1) w.template BHZ03_widening_assign<PPL::BHRZ03_Certificate>(*x, PPL::widen_fun_ref(&PPL::Polyhedron::BHRZ03_widening_assign));
+        else if (v == 2) w.BGP99_extrapolation_assign(*x, PPL::widen_fun_ref(&PPL::Polyhedron::H79_widening_assign), md);
+        else w.BGP99_extrapolation_assign(*x, PPL::widen_fun_ref(&PPL::Polyhedron::BHRZ03_widening_assign), md);
+        ctx.stat("pwiden." + vn);
+        if (!w.OK()) { ctx.violation("C08", "ok", kl(nm, op, vn, ""), "OK() false after the powerset widening"); break; }
+        { auto& pv = probes.of((dimension_type) dim); bool bad = false;
+          for (size_t k = 0; k < pv.size() && !bad; ++k) if (in_set(y, pv[k]) && !in_set(w, pv[k])) { ctx.violation("C08", "not-superset", kl(nm, op, vn, "probe"), "point " + oracle::show(pv[k]) + " of the larger argument is not in the widening"); bad = true; }
+          if (bad) break; }
+        if (w.size() <= 6 && y.size() <= 6) { PS a(w), b(y); ctx.stat("pwiden.geometric_cover_checked"); if (!a.geometrically_covers(b)) { ctx.violation("C08", "not-superset", kl(nm, op, vn, ""), "the powerset widening does not cover its larger argument"); break; } }
+        if (v >= 2) { (void) w.omega_reduce(); ctx.stat("pwiden.bgp99_result_disjuncts_" + std::to_string(std::min<size_t>(w.size(), 9))); }
+        else if (w.size() <= 6 && x->size() <= 6) {
+          bool stationary; { PS a(*x), b(w); stationary = a.geometrically_covers(b); }
+          if (!stationary) { ++ctx.faults_fired; (void) w.omega_reduce();
+            bool st = v == 0 ? stabilizing<PPL::H79_Certificate>(*x, w, (dimension_type) dim) : stabilizing<PPL::BHRZ03_Certificate>(*x, w, (dimension_type) dim);
+            ctx.stat("pwiden.certificate_checked");
+            if (!st) { ctx.violation("C08", "certificate-not-decreasing", kl(nm, op, vn, ""), "a non-stationary BHZ03 step is not stabilizing (neither the hull certificate nor the multiset of certificates decreases)");
+              if (getenv("VERIF_TRACE")) std::cerr << "TRACE x\n" << dump_of(*x) << "TRACE y\n" << dump_of(y) << "TRACE w\n" << dump_of(w) << "\n";
+              break; } }
+        }
+        else ctx.stat("pwiden.certificate_skipped_large");
+        if (v >= 2) ++ctx.faults_fired;
+        ctx.state(vn + "|" + std::to_string(w.size()));
+        *x = w; ++ctx.ops_done;
+      }
+      catch (const std::invalid_argument& e) { ctx.stat("widen.rejected"); continue; }
+      catch (const std::exception& e) { ctx.violation("C08", "unexpected-exception", kl(nm, op, "", typeid(e).name()), e.what()); break; }
+    }
+    ctx.nontrivial = ctx.ops_done >= 3 && ctx.faults_fired >= 1;
+  }
+};
 }  // namespace obj
 
 template <class T> static void mk(MultiHarness& m) { m.add(new obj::WidenHarness<T>(), obj::Dom<T>::name()); }
@@ -285,5 +423,7 @@ int main(int argc, char** argv) {
   MultiHarness m("widen");
   mk<obj::PPL::C_Polyhedron>(m); mk<obj::PPL::NNC_Polyhedron>(m); mk<obj::PPL::Grid>(m);
   mk<obj::BDQ>(m); mk<obj::OSQ>(m); mk<obj::RBox>(m);
+  m.add(new obj::PsetWidenHarness<obj::PPL::C_Polyhedron>(), "Powerset_C_Polyhedron");
+  m.add(new obj::PsetWidenHarness<obj::PPL::NNC_Polyhedron>(), "Powerset_NNC_Polyhedron");
   return kit_main(argc, argv, m);
 }
